@@ -1,5 +1,6 @@
-"""Random transitions OUTSIDE the exhaustive bound (up to 12 stories, 10-20 distinct IDs, ID lists up to 6, metadata
-anywhere, up to 7 items per story with paragraphs in between).  Inputs are drawn by a seeded Python generator, executed
+"""Random transitions OUTSIDE the exhaustive bound (up to 12 - every fifth running order up to 26 - stories, 20-40
+distinct IDs, ID lists up to 6 - every fourth message up to 13 entries, so that counts and positions get a second
+digit - metadata anywhere, up to 7 (14) items per story with paragraphs in between).  Inputs are drawn by a seeded Python generator, executed
 against the real code like the TLC-generated transitions, and judged by the same TLC trace spec (Trace_Merge): the
 specification's Merge is not bounded, only MC_merge's enumeration is."""
 import random
@@ -22,12 +23,12 @@ BLANK = {"shape": "blank", "id": NONE}
 ABSENT = {"shape": "absent", "id": NONE}
 
 
-def story(r, sid, v="", timed=True):
+def story(r, sid, v="", timed=True, big=False):
     kids = [node("storyID", sid, "="), node("storySlug", NONE, "x:slug.%s%s" % (sid, v))]
     if timed:
         kids.append(node("mosExternalMetadata", "sch.time", "tm:%s%s" % (sid, v)))
-    n = r.randint(0, 7)
-    ids = r.sample(["I%d" % i for i in range(1, 13)], n)
+    n = r.randint(0, 7) if not big else r.randint(8, 14)
+    ids = r.sample(["I%d" % i for i in range(1, 21)], n)
     for i in ids:
         if r.random() < 0.4:
             kids.append(node("p", NONE, "x:p.%s.%s%s" % (sid, i, v)))
@@ -37,16 +38,16 @@ def story(r, sid, v="", timed=True):
     return node("story", sid, NONE, kids)
 
 
-def running_order(r):
-    n = r.randint(0, 12)
-    sids = r.sample(["S%d" % i for i in range(1, 21)], n)
+def running_order(r, big=False):
+    n = r.randint(0, 12) if not big else r.randint(13, 26)
+    sids = r.sample(["S%d" % i for i in range(1, 41)], n)
     kids = [node("roID", "RO1", "="), node("roSlug", NONE, "x:roSlug"), node("roEdStart", NONE, "ed:0")]
     meta = [node("roTrigger", NONE, "x:trig"), node("mosExternalMetadata", "sch.A", "x:extA"),
             node("mosExternalMetadata", "sch.B", "x:extB"), node("roChannel", NONE, "x:chan")]
     for s in sids:
         if r.random() < 0.15:
             kids.append(r.choice(meta))
-        kids.append(story(r, s, timed=r.random() < 0.9))
+        kids.append(story(r, s, timed=r.random() < 0.9, big=big))
     for m in meta:
         if r.random() < 0.25 and m not in kids:
             kids.append(m)
@@ -66,14 +67,20 @@ def pick_ref(r, present, unknown, allow_absent=False):
     return dict(BLANK)
 
 
-def message(r, ro, sids):
+LISTY = ["StoryDelete", "EAStoryDelete", "EAStoryMove", "ItemDelete", "EAItemDelete", "ItemMoveMultiple", "EAItemMove",
+         "StoryAppend", "StoryInsert", "EAStoryInsert", "ItemInsert", "EAItemInsert"]
+
+
+def message(r, ro, sids, big=False):
     from .project import empty_msg
-    cls = r.choice(STORY + ITEM + OTHER + STORY + ITEM)
+    # a big running order gets long ID lists / many carried elements, mostly of the classes that take lists
+    cls = r.choice(STORY + ITEM + OTHER + STORY + ITEM + (LISTY * 6 if big else []))
     m = empty_msg(cls)
-    fresh_s = [s for s in ["N%d" % i for i in range(1, 9)] if s not in sids]
+    top = 13 if big else 6
+    fresh_s = [s for s in ["N%d" % i for i in range(1, 16)] if s not in sids]
     if cls in STORY:
         def carried():
-            k = r.randint(1, 4)
+            k = r.randint(1, 4) if not big else r.randint(5, 12)
             out = [story(r, s) for s in r.sample(fresh_s, k)]
             if sids and r.random() < 0.2:
                 out.insert(r.randint(0, len(out)), story(r, r.choice(sids), v="'"))
@@ -93,7 +100,7 @@ def message(r, ro, sids):
         elif cls == "StoryAppend":
             m["carried"] = carried()
         elif cls in ("StoryDelete", "EAStoryDelete"):
-            m["ids"] = [pick_ref(r, sids, "SU") for _ in range(r.randint(1, 6))]
+            m["ids"] = [pick_ref(r, sids, "SU") for _ in range(r.randint(1, top))]
         elif cls in ("StoryInsert", "EAStoryInsert", "StoryReplace", "EAStoryReplace"):
             m["story"] = pick_ref(r, sids, "SU", allow_absent=cls.endswith("Insert"))
             m["carried"] = carried()
@@ -101,7 +108,7 @@ def message(r, ro, sids):
             m["ids"] = [pick_ref(r, sids, "SU") for _ in range(r.choice([1, 2, 2, 2]))]
         elif cls == "EAStoryMove":
             m["story"] = pick_ref(r, sids, "SU", allow_absent=True)
-            m["ids"] = [pick_ref(r, sids, "SU") for _ in range(r.randint(1, 6))]
+            m["ids"] = [pick_ref(r, sids, "SU") for _ in range(r.randint(1, top))]
         elif cls == "EAStorySwap":
             m["ids"] = [pick_ref(r, sids, "SU"), pick_ref(r, sids, "SU")]
         return m
@@ -112,18 +119,18 @@ def message(r, ro, sids):
             for k in ro["kids"]:
                 if k["tag"] == "story" and k["id"] == m["story"]["id"]:
                     items = [c["id"] for c in k["kids"] if c["tag"] == "item"]
-        fresh_i = [i for i in ["J%d" % i for i in range(1, 9)] if i not in items]
-        carried = lambda: [node("item", i, "x:item.msg.%s" % i) for i in r.sample(fresh_i, r.randint(1, 4))]
+        fresh_i = [i for i in ["J%d" % i for i in range(1, 16)] if i not in items]
+        carried = lambda: [node("item", i, "x:item.msg.%s" % i) for i in r.sample(fresh_i, r.randint(1, 4) if not big else r.randint(5, 12))]
         if cls in ("ItemDelete", "EAItemDelete"):
-            m["ids"] = [pick_ref(r, items, "IU") for _ in range(r.randint(1, 6))]
+            m["ids"] = [pick_ref(r, items, "IU") for _ in range(r.randint(1, top))]
         elif cls in ("ItemInsert", "EAItemInsert", "ItemReplace", "EAItemReplace"):
             m["item"] = pick_ref(r, items, "IU")
             m["carried"] = carried()
         elif cls == "ItemMoveMultiple":
-            m["ids"] = [pick_ref(r, items, "IU") for _ in range(r.randint(2, 6))]
+            m["ids"] = [pick_ref(r, items, "IU") for _ in range(r.randint(2, top))]
         elif cls == "EAItemMove":
             m["item"] = pick_ref(r, items, "IU")
-            m["ids"] = [pick_ref(r, items, "IU") for _ in range(r.randint(1, 6))]
+            m["ids"] = [pick_ref(r, items, "IU") for _ in range(r.randint(1, top))]
         elif cls == "EAItemSwap":
             m["ids"] = [pick_ref(r, items, "IU"), pick_ref(r, items, "IU")]
         return m
@@ -143,11 +150,12 @@ def generate(seed, n):
     r = random.Random("randomdrv|%s" % seed)
     pres, cases = {}, []
     for i in range(n):
-        ro, sids = running_order(r)
+        big = i % 5 == 4
+        ro, sids = running_order(r, big)
         key = "r%d" % i
         pres[key] = ro
         for _ in range(4):
-            cases.append((key, message(r, ro, sids)))
+            cases.append((key, message(r, ro, sids, big)))
     return {"pres": pres, "cases": cases, "stats": {}, "bound": {}, "classes": STORY + ITEM + OTHER}
 
 
